@@ -52,6 +52,20 @@ SetToSortedSeq(S) == \* ids in increasing order (completion order of the cleanup
 
 Mk(s, re) == [s |-> s, re |-> re]
 
+\* ---------------------------------------------------------------- request ids on the wire (C04)
+\* Request ids are sequential from 1 and wrap from 2^53 to 1 (util.IdGenerator); an id is the limb pair <<hi, lo>> with
+\* id = hi * 2^27 + lo because TLC integers have 32 bits.  The counter p holds the id issued last (<<0, 0>>: none yet).
+Radix == 134217728
+IdMaxP == <<67108864, 0>>                                  \* 2^53
+IdSucc(p) == IF p = IdMaxP THEN <<0, 1>> ELSE IF p[2] = Radix - 1 THEN <<p[1] + 1, 0>> ELSE <<p[1], p[2] + 1>>
+IdInRange(p) == /\ p[1] >= 0 /\ p[1] <= IdMaxP[1] /\ p[2] >= 0 /\ p[2] < Radix
+                /\ p # <<0, 0>> /\ (p[1] = IdMaxP[1] => p[2] = 0)
+RECURSIVE IdAfter(_, _)
+IdAfter(p, k) == IF k = 0 THEN p ELSE IdAfter(IdSucc(p), k - 1)
+ASSUME /\ IdAfter(<<0, 0>>, 3) = <<0, 3>> /\ IdSucc(<<0, Radix - 1>>) = <<1, 0>> /\ IdSucc(IdMaxP) = <<0, 1>>
+       /\ \A k \in 1..8 : IdInRange(IdAfter(<<IdMaxP[1] - 1, Radix - 3>>, k))
+       /\ ~IdInRange(<<0, 0>>) /\ ~IdInRange(<<IdMaxP[1], 1>>) /\ IdInRange(IdMaxP)
+
 \* ---------------------------------------------------------------- session lifecycle (C06)
 \* every pending request is completed with an error; the tables are emptied
 FailAll(s) == [done |-> [i \in 1..Cardinality(AllOpen(s)) |-> [id |-> SetToSortedSeq(AllOpen(s))[i], ok |-> FALSE]],
